@@ -245,10 +245,10 @@ package server
 
 // "... until the per-family long-lived timer expires": what the expiry removes are the routes still stale; routes the
 // peer has re-announced since (the session may be up again, End-of-RIB not yet in) are fresh and stay. The closure is
-// the management operation run by the timer goroutine; removing the whole family (dropAdjRIBIn) is not to be reached
+// the management operation run by the timer goroutine: what it propagates comes from the sweep of stale routes
 //@ func (*BgpServer).handleFSMMessage$2$1
 //@   claims at-call
-//@   at-call s.dropAdjRIBIn( requires false
+//@   at-call s.propagateUpdate( requires called(DropStale) && !called(DropAll) && !called(dropAdjRIBIn)
 
 //@ props C17
 // from C17 "every ... import-RT ... change triggers exactly the advertisements and withdrawals needed": a route that
